@@ -45,6 +45,20 @@ def build() -> Check:
                  and isinstance(n_.comparators[0], ast.Attribute) and isinstance(n_.comparators[0].value, ast.Name) and n_.comparators[0].value.id == "self"}
     if not walk_sets:
         raise AnalysisError("_has_completed_ancestor: no membership test on a set of the state found")
+    # the walk climbs parent links it finds in a map of the state (falling back to the recorded history): create_checkpoint has to put the link of every
+    # update it sees into that map - an operation started in THIS invocation is not in the history until the response of its first checkpoint is merged,
+    # and a walk that loses the thread there lets a descendant of a completed context through (mutscan: the store deleted, nothing noticed)
+    walk_maps = {n_.func.value.attr for n_ in ast.walk(hca_.node) if isinstance(n_, ast.Call) and isinstance(n_.func, ast.Attribute) and n_.func.attr == "get"
+                 and isinstance(n_.func.value, ast.Attribute) and isinstance(n_.func.value.value, ast.Name) and n_.func.value.value.id == "self" and n_.func.value.attr != "operations"}
+    walk_maps |= {n_.value.attr for n_ in ast.walk(hca_.node) if isinstance(n_, ast.Subscript) and isinstance(n_.value, ast.Attribute) and isinstance(n_.value.value, ast.Name)
+                  and n_.value.value.id == "self"}
+    if not walk_maps:
+        raise AnalysisError("_has_completed_ancestor: no parent-link map found")
+    link_stores = [st for st in ast.walk(pm.ckpt_fn.node) if isinstance(st, ast.Assign) and isinstance(st.targets[0], ast.Subscript) and isinstance(st.targets[0].value, ast.Attribute)
+                   and st.targets[0].value.attr in walk_maps and "operation_id" in ast.unparse(st.targets[0].slice) and "parent_id" in ast.unparse(st.value)]
+    ck.ob("R3.parent-links-are-registered-where-the-walk-reads-them", fn_construct(pm.ckpt_fn), bool(link_stores),
+          f"create_checkpoint never stores `<id> -> <parent id>` into {sorted(walk_maps)}, the map _has_completed_ancestor climbs: for an operation of this invocation that "
+          "is not yet in the merged history the walk ends early and a descendant of a completed context is enqueued")
     n_orphan = 0
     guard_keys = set()
     for t in upd_traces:
